@@ -1,1 +1,15 @@
 import Martian.Props.C10
+open Martian.Props.C10
+#print axioms ranking_decreases
+#print axioms bounded_process_steps
+#print axioms termed_is_stable
+#print axioms deadlock_only_f10c
+#print axioms terminates_or_f10c
+#print axioms terminates_partial
+#print axioms f10c_start_reachable
+#print axioms f10c_run
+#print axioms f10c_end_is_stuck
+#print axioms terminates_counterexample
+#print axioms returned_is_stable
+#print axioms upstream_closed_on_return
+#print axioms no_process_left_on_return
